@@ -77,6 +77,11 @@ def register_clash(name):
     return register_stateful_transform(Clash)
 
 
+# Interleaving seam: when the simulator arms UF_HOOK[0], the next call of a client's ``uf`` (made by formulae in the
+# middle of a build or an evaluation) first runs that callable -- a nested operation issued by user code --
+# and then computes its value as usual.  Never armed in the fresh-process reference.
+UF_HOOK = [None]
+
 CLIENT_SRC = """
 def _build0(_f, _d, _na, _ex):
     return design_matrices(_f, _d, na_action=_na, extra_namespace=_ex)
@@ -94,7 +99,12 @@ def ucat(s):
     return s.astype(str).str.upper()
 
 
-def uf(x):
+def uf(x, _hook=_uf_hook):
+    _h = _hook[0]
+    if _h is not None:
+        # the simulator interleaves another operation here: in the middle of the build / evaluation that called uf
+        _hook[0] = None
+        _h()
     if np.any(np.asarray(x) == 777.0):
         raise ValueError("uf: marker value")
     return np.sqrt(np.abs(x)) + c0
@@ -126,7 +136,9 @@ def make_client(spec, idx, ns_extra=None):
     ns["sm0"] = Sum()
     ns["Helmert"] = Helmert
     ns["hel0"] = Helmert()
+    ns["_uf_hook"] = UF_HOOK
     exec(compile(CLIENT_SRC, f"<client{idx}>", "exec"), ns)
+    del ns["_uf_hook"]  # bound as a default argument of uf; the namespace itself looks as before
     extra = spec.get("extra")
     extra = None if extra is None else dict(extra)
     fn = ns["_build1"] if spec.get("depth", 0) == 1 else ns["_build0"]
